@@ -191,7 +191,7 @@ def _run_copy_cases(jobs: list[tuple]) -> list[tuple[list[dict], int]]:
 
 def search_copies(ck: Ck) -> None:
     from harness import c09_util as U
-    n = _budget(ck, 2400, 40000)
+    n = _budget(ck, 1500, 40000)
     cases: list[tuple[str, int, str]] = []
     if CORPUS.exists():
         for p in sorted(CORPUS.glob('*.json')):
@@ -224,6 +224,86 @@ def search_copies(ck: Ck) -> None:
     ck.extra['copy_violation_keys'] = sorted(found)
 
 
+# ------------------------------------------------------------------------------------------------ boundary values of scalar fields
+BOUNDARY = {str: ['', '0', ' '], int: [0, 1, -1, 2, 7], float: [0.0, 0.25, -3.5], bool: [False, True]}
+
+
+def run_boundary_case(kind: str, case_seed: int, variant: str) -> list[dict]:
+    """One scalar field at a time: every str/int/float/bool data field of every map object reachable from a generated
+    object is set to each boundary value of its type (falsy values, the values a constructor flag would map to, a value
+    no editor writes), the object is copied, and the copy must export like the (edited) original.  This is the input
+    class a lossy constructor-argument mapping needs (`only_once=` for `times=`, `p or default`)."""
+    from harness import c09_util as U
+    r = random.Random(case_seed)
+    vmf, other = U.VMF(), U.VMF()
+    obj = U.generate(kind, r, vmf)
+    fn, complete = U.copy_variants(kind)[variant]
+    problems: list[dict] = []
+    if not complete:
+        return problems
+    todo = []
+    done: set[tuple[str, str]] = set()
+    for o, path in sorted(U.walk(obj).values(), key=lambda x: (len(x[1]), x[1])):
+        if not type(o).__module__.startswith('srctools.') or type(o).__module__ == 'srctools.math':
+            continue
+        for lab, val in U.children(o):
+            f = lab[1:]
+            if not lab.startswith('.') or f == 'id' or type(val) not in BOUNDARY or (type(o).__name__, f) in done:
+                continue
+            done.add((type(o).__name__, f))      # one object per (class, field) and case
+            todo.append((o, f, val, path))
+    for o, f, val, path in todo:
+        for b in BOUNDARY[type(val)]:
+            if b == val and type(b) is type(val):
+                continue
+            try:
+                setattr(o, f, b)
+            except (AttributeError, TypeError, ValueError):
+                break
+            try:
+                with warnings.catch_warnings():
+                    warnings.simplefilter('ignore')
+                    oa = U.observe(obj, True)
+                    cp = fn(obj, other)
+                    ob = U.observe(cp, True)
+            except Exception:
+                continue        # not a state the object can be in (export or copy of the ORIGINAL fails): not a copy defect
+            finally:
+                setattr(o, f, val)
+            if oa != ob:
+                where, la, lb = U.first_diff(oa, ob)
+                problems.append({'key': f'copy-incomplete:{kind}:{"output-line" if kind == "Output" else where_key(where)}',
+                                 'what': f'{kind}.{variant} with {norm_path(path)}.{f} = {b!r}: export of the copy differs from the '
+                                         f'original at {where}: {la!r} vs {lb!r}',
+                                 'detail': [norm_path(path), f, repr(b), where, la, lb], 'n_fields': len(todo)})
+    if not problems:
+        problems.append({'key': None, 'n_fields': len(todo)})
+    return problems
+
+
+def search_boundary(ck: Ck) -> None:
+    from harness import c09_util as U
+    n = _budget(ck, 110, 1500)
+    found: dict[str, tuple[dict, tuple]] = {}
+    for i in range(n):
+        kind = U.KINDS[i % len(U.KINDS)]
+        seed = ck.rng.randrange(1 << 30)
+        variant = ck.rng.choice(sorted(v for v, (_f, c) in U.copy_variants(kind).items() if c))
+        probs = run_boundary_case(kind, seed, variant)
+        nf = probs[0].get('n_fields', 0) if probs else 0
+        ck.count('boundary_cases')
+        ck.count('boundary_field_edits', nf)
+        ck.hist('boundary_kind', kind)
+        if nf:
+            ck.seen(('boundary', kind, seed, variant))
+        for p in probs:
+            if p.get('key'):
+                found.setdefault(p['key'], (p, (kind, seed, variant)))
+    for key, (p, (kind, seed, variant)) in sorted(found.items()):
+        ck.violation(key, p['what'], {'boundary': True, 'kind': kind, 'case_seed': seed, 'variant': variant, 'detail': p['detail'],
+                                      'how': 'checks.c09.run_boundary_case(kind, case_seed, variant)'})
+
+
 # ------------------------------------------------------------------------------------------------ kernel-checked certificates
 def coq_heap(nodes, a, b, sa, sb) -> str:
     def fld(f):
@@ -237,7 +317,7 @@ def cert_cases(ck: Ck) -> None:
     """Export original+copy object graphs of real objects and let the kernel check the separation certificate
     (the premise of c09_export_ok_independent)."""
     from harness import c09_util as U
-    n = _budget(ck, 110, 550)
+    n = _budget(ck, 88, 550)
     exprs, meta = [], []
     kinds = itertools.cycle(U.KINDS)
     tries = 0
@@ -651,7 +731,7 @@ def run_kv_add(case_seed: int) -> list[dict]:
 
 
 def search_kv_add(ck: Ck) -> None:
-    n = _budget(ck, 3000, 30000)
+    n = _budget(ck, 2400, 30000)
     found: dict[str, tuple[dict, int]] = {}
     seeds = [ck.rng.randrange(1 << 30) for _ in range(n)]
     for s in seeds:
@@ -829,7 +909,7 @@ def run_instance_case(case_seed: int) -> list[dict]:
 
 
 def search_instancing(ck: Ck) -> None:
-    n = _budget(ck, 150, 2000)
+    n = _budget(ck, 120, 2000)
     found: dict[str, tuple[dict, int]] = {}
     for _ in range(n):
         s = ck.rng.randrange(1 << 30)
@@ -957,6 +1037,8 @@ def run(ck: Ck) -> None:
         lap('correspondences')
     search_copies(ck)
     lap('search_copies')
+    search_boundary(ck)
+    lap('search_boundary')
     search_kv_add(ck)
     lap('search_kv_add')
     search_operators(ck)
@@ -1007,6 +1089,11 @@ def run(ck: Ck) -> None:
 
 def replay(data: dict) -> int:
     r = data['replay']
+    if r.get('boundary'):
+        for p in run_boundary_case(r['kind'], r['case_seed'], r['variant']):
+            if p.get('key'):
+                print(p['key'], '--', p['what'])
+        return 0
     if 'kind' in r:
         for p in run_copy_case(r['kind'], r['case_seed'], r['variant'], r.get('n_mut', 12)):
             print(p['key'], '--', p['what'])
